@@ -503,4 +503,34 @@ func checkAbsentIsNil(p *Prog, res *Result, rule string) {
 	if n == 0 {
 		res.und(rule, "memkv: lookup", "-", "no call of a nil-for-absent lookup found")
 	}
+	// .. and the writer's side of the same convention: what is stored under a key is never nil - a copy made with
+	// append([]byte(nil), v...) is nil when v is empty, and the key it is stored under then reads as absent
+	k := 0
+	for _, f := range p.AllFuncs {
+		if f.Pkg != sp || f.Blocks == nil {
+			continue
+		}
+		for _, c := range callsIn(f) {
+			if !isEngineCall(c, "Set") || len(c.Common().Args) < 2 {
+				continue
+			}
+			k++
+			construct := fmt.Sprintf("%s: value stored in the skip list #%d", funcName(f), k)
+			v := resolve(c.Common().Args[len(c.Common().Args)-1])
+			if mi, ok := v.(*ssa.MakeInterface); ok {
+				v = resolve(mi.X)
+			}
+			nilCopy := false
+			if ac, ok := v.(*ssa.Call); ok {
+				if bi, ok := ac.Common().Value.(*ssa.Builtin); ok && bi.Name() == "append" && len(ac.Common().Args) == 2 && isNilConst(resolve(ac.Common().Args[0])) {
+					nilCopy = true
+				}
+			}
+			if nilCopy {
+				res.bad(rule, construct, p.pos(c.Pos()), "the value is stored as append([]byte(nil), v...), which is nil for an empty v: the key then exists for Get and for iterators but counts as absent for put-if-absent and compare-and-swap, whose lookups take nil for 'no such key'")
+			} else {
+				res.ok(rule, construct, p.pos(c.Pos()), "not a nil-for-empty copy")
+			}
+		}
+	}
 }
